@@ -55,19 +55,19 @@ func openValue(dir, ext string) (*value, error) {
 	if i == -1 {
 		return nil, fmt.Errorf("raft: invalid value file %s", matches[0])
 	}
-	v1, err := strconv.ParseInt(s[:i], 10, 64)
+	v1, err := strconv.ParseUint(s[:i], 10, 64)
 	if err != nil {
 		return nil, fmt.Errorf("raft: invalid value file %s", matches[0])
 	}
-	v2, err := strconv.ParseInt(s[i+1:], 10, 64)
+	v2, err := strconv.ParseUint(s[i+1:], 10, 64)
 	if err != nil {
 		return nil, fmt.Errorf("raft: invalid value file %s", matches[0])
 	}
 	return &value{
 		dir: dir,
 		ext: ext,
-		v1:  uint64(v1),
-		v2:  uint64(v2),
+		v1:  v1,
+		v2:  v2,
 	}, nil
 }
 
